@@ -34,7 +34,8 @@ META = {
     "design_ref": "DESIGN.md §3 C06",
     "engines": ["refmodel", "storage_exec", "histgen"],
 }
-REQUIRED = ("records", "rejected_ops", "worker_state_comparisons", "prefix_replays", "snapshot_restores", "interposed_appends", "rejected_mid_batch")
+REQUIRED = ("records", "rejected_ops", "worker_state_comparisons", "prefix_replays", "snapshot_restores", "interposed_appends", "rejected_mid_batch",
+            "thread_schedules_both_paused", "cluster_gap_scenarios")
 SHARDS = {"quick": 12, "thorough": 16}
 WATCHDOG_S = {"quick": 900, "thorough": 4 * 3600}
 FLAVOURS = ["file", "file_openlock", "redis", "file_snapshot"]
@@ -388,6 +389,186 @@ def _bind_for(model_p: RefStorage, bind: X.Binding) -> X.Binding:
     return b
 
 
+def snapshot_under_threads(ctx: Ctx, rng, flavour: str, idx: int) -> None:
+    """Two threads on ONE JournalStorage with a snapshot-capable backend and SNAPSHOT_INTERVAL=1: thread A creates a
+    trial (which dumps a snapshot), thread B writes an attribute.  Two-preemption schedules: A is paused at a line of
+    create_new_trial, B is started and paused at a line of its own call, then A is resumed, then B.  Afterwards a
+    worker restored from EVERY snapshot taken + the tail must equal the final state."""
+    import optuna.storages.journal._storage as JS
+    from optuna.storages import JournalStorage
+    from optuna.storages import journal
+
+    from vf import sched
+
+    Hooked, HookedSnap, Prefix, FixedSnapPrefix = _mk_wrappers()
+    old_interval = JS.SNAPSHOT_INTERVAL
+    JS.SNAPSHOT_INTERVAL = 1
+    s = sched.Sched([JS])
+    try:
+        def build():
+            d = mktemp_dir("vf-c06t-")
+            path = f"{d}/journal.log"
+            if flavour == "redis":
+                import fakeredis
+
+                server = fakeredis.FakeServer()
+
+                def raw():
+                    b = journal.JournalRedisBackend("redis://localhost")
+                    b._redis = fakeredis.FakeStrictRedis(server=server)
+                    return b
+                hb = HookedSnap(raw())
+            else:
+                def raw():
+                    return journal.JournalFileBackend(path)
+                hb = HookedSnap(raw(), {})
+            st = JournalStorage(hb)
+            from optuna.study import StudyDirection
+
+            sid = st.create_new_study([StudyDirection.MINIMIZE], "t")
+            t0 = st.create_new_trial(sid)
+            st.create_new_trial(sid)
+            return st, hb, raw, sid, t0
+
+        st, hb, raw, sid, t0 = build()
+        la = list(s.trace_counts(lambda: st.create_new_trial(sid)))
+        lb = list(s.trace_counts(lambda: st.set_trial_user_attr(t0, "k", 0)))
+        combos = [(a, b) for a in la for b in lb]
+        rng.shuffle(combos)
+        for (ca, lna), (cb, lnb) in combos[: ctx.pick(25, 400)]:
+            st, hb, raw, sid, t0 = build()
+            pa = s.add_pause(ca, lna, thread_name="A", max_wait=5.0)
+            pb = s.add_pause(cb, lnb, thread_name="B", max_wait=5.0)
+            res: dict = {}
+            ta = threading.Thread(target=lambda: res.__setitem__("a", X.CONTRACT_EXC and _safe(lambda: st.create_new_trial(sid))), name="A")
+            tb = threading.Thread(target=lambda: res.__setitem__("b", _safe(lambda: st.set_trial_user_attr(t0, "k", "B1"))), name="B")
+            ta.start()
+            a_hit = pa.reached.wait(1.0)
+            tb.start()
+            b_hit = pb.reached.wait(0.05)
+            pa.resume()
+            ta.join(0.05 if b_hit else 5.0)
+            pb.resume()
+            ta.join(10)
+            tb.join(10)
+            s.clear_pauses()
+            ctx.count("thread_schedules")
+            if a_hit and b_hit:
+                ctx.count("thread_schedules_both_paused")
+            if ta.is_alive() or tb.is_alive():
+                ctx.count("thread_schedules_hung")
+                continue
+            case = {"flavour": flavour, "thread_mode": True, "index": idx, "seed": ctx.seed, "A_paused_at": f"{ca.co_qualname}:{lna}", "B_paused_at": f"{cb.co_qualname}:{lnb}"}
+            ctx.case(case, bool(a_hit and b_hit))
+            final = _public_state(JournalStorage(raw()), sid)
+            if res.get("a", ("exc",))[0] != "ok" or res.get("b", ("exc",))[0] != "ok":
+                ctx.violation({"kind": "call_failed_under_threads", "flavour": "file" if flavour != "redis" else "redis"}, f"{res}", case)
+                continue
+            snaps = hb.snap.get("history", []) if hb.snap is not None else getattr(hb, "saved", [])
+            for sn in snaps:
+                n_total = len(raw().read_logs(0))
+                restored = JournalStorage(FixedSnapPrefix(raw(), n_total, lambda: 1000, sn))
+                ctx.count("snapshot_restores")
+                got = _public_state(restored, sid)
+                if got != final or restored._replay_result.log_number_read != n_total:
+                    ctx.violation({"kind": "snapshot_restore_differs", "flavour": "file" if flavour != "redis" else "redis", "with_snapshots": True, "threads": True},
+                                  f"a worker restored from a snapshot taken while another thread was applying records differs from a full replay: {got} != {final}", case)
+                    break
+    finally:
+        JS.SNAPSHOT_INTERVAL = old_interval
+        s.close()
+
+
+def _safe(fn):
+    try:
+        return ("ok", fn())
+    except Exception as e:  # noqa: BLE001
+        return ("exc", type(e).__name__, str(e)[:100])
+
+
+def _public_state(storage, sid) -> list:
+    out = []
+    for t in storage.get_all_trials(sid):
+        out.append((t._trial_id, t.number, t.state.name, sorted(t.user_attrs.items()), sorted(t.system_attrs.items())))
+    return out
+
+
+def redis_cluster_gap(ctx: Ctx, rng, idx: int) -> None:
+    """use_cluster=True appends are INCR then SET.  Writer A is parked between the two (harness-side proxy on its redis
+    client), writer B appends the next record, reader C syncs meanwhile; then A is released.  Everybody must converge."""
+    import fakeredis
+    from optuna.storages import JournalStorage
+    from optuna.storages import journal
+    from optuna.study import StudyDirection
+
+    server = fakeredis.FakeServer()
+    gate = {"armed": False, "at_gap": threading.Event(), "release": threading.Event()}
+
+    class GapProxy:
+        def __init__(self, inner):
+            self._inner = inner
+
+        def __getattr__(self, name):
+            return getattr(self._inner, name)
+
+        def set(self, key, value, *a, **k):
+            if gate["armed"] and ":log:" in str(key):
+                gate["armed"] = False
+                gate["at_gap"].set()
+                gate["release"].wait(20)
+            return self._inner.set(key, value, *a, **k)
+
+    def mk(proxy=False):
+        b = journal.JournalRedisBackend("redis://localhost", use_cluster=True)
+        r = fakeredis.FakeStrictRedis(server=server)
+        b._redis = GapProxy(r) if proxy else r
+        return JournalStorage(b)
+
+    sa, sb, sc = mk(True), mk(), mk()
+    sid = sa.create_new_study([StudyDirection.MINIMIZE], "g")
+    t0 = sa.create_new_trial(sid)
+    for st in (sb, sc):
+        st.get_all_trials(sid)
+    res: dict = {}
+    gate["armed"] = True
+    ta = threading.Thread(target=lambda: res.__setitem__("a", _safe(lambda: sa.set_trial_user_attr(t0, "a", 1))))
+    ta.start()
+    if not gate["at_gap"].wait(10):
+        ctx.count("cluster_gap_not_reached")
+        gate["release"].set()
+        ta.join(20)
+        return
+    tb = threading.Thread(target=lambda: res.__setitem__("b", _safe(lambda: sb.set_trial_user_attr(t0, "b", 2))))
+    tc = threading.Thread(target=lambda: res.__setitem__("c", _safe(lambda: sc.get_trial(t0).user_attrs)))
+    tb.start()
+    time_sleep(0.15 + 0.2 * rng.random())
+    tc.start()
+    time_sleep(0.25)
+    gate["release"].set()
+    for t in (ta, tb, tc):
+        t.join(60)
+    ctx.count("cluster_gap_scenarios")
+    case = {"flavour": "redis_cluster", "cluster_gap": True, "index": idx, "seed": ctx.seed}
+    ctx.case(case, True)
+    if any(t.is_alive() for t in (ta, tb, tc)):
+        ctx.inconclusive_because("redis cluster gap scenario hung")
+        return
+    views = {}
+    for name, st in (("A", sa), ("B", sb), ("C", sc), ("fresh", mk())):
+        r = _safe(lambda st=st: (sorted(st.get_trial(t0).user_attrs.items()), st._replay_result.log_number_read))
+        views[name] = r
+    exp = ("ok", ([("a", 1), ("b", 2)], 4))
+    if any(v != exp for v in views.values()) or res.get("a", ("?",))[0] != "ok" or res.get("b", ("?",))[0] != "ok":
+        ctx.violation({"kind": "worker_diverges", "flavour": "redis", "use_cluster": True, "reader_synced_across_an_unfilled_log_number": True},
+                      f"after a reader synced while log number n was reserved but not yet stored, workers disagree: {views} (calls: {res})", case)
+
+
+def time_sleep(x: float) -> None:
+    import time
+
+    time.sleep(x)
+
+
 def run(ctx: Ctx) -> None:
     ctx.rule = ("seeded multi-worker logs (2-4 workers, 30-200 calls, C01 generator) x backend flavour x snapshot interval; one case = one log; "
                 "non-trivial = it contains a rejected operation that sits in the middle of another worker's replay batch, or >40 records with rejections")
@@ -398,6 +579,11 @@ def run(ctx: Ctx) -> None:
         run_log(ctx, ctx.rng("log", ctx.shard[0], i), flavour, i)
         if ctx.out_of_time():
             break
+    if ctx.shard[0] % 4 in (2, 3) or ctx.shard[1] == 1:
+        snapshot_under_threads(ctx, ctx.rng("threads", ctx.shard[0]), "redis" if ctx.shard[0] % 4 == 2 else "file_snapshot", ctx.shard[0])
+    if ctx.shard[0] % 4 == 1 or ctx.shard[1] == 1:
+        for i in range(ctx.pick(2, 20)):
+            redis_cluster_gap(ctx, ctx.rng("gap", ctx.shard[0], i), i)
 
 
 def replay(ctx: Ctx, w: dict) -> None:
